@@ -265,10 +265,13 @@ def do_probe(ctx, kind, trigger, form):
         return 'raised'
     if exc is not None:
         raise C20Violation('c20.reaction', where + ': raised %r' % (exc,))
+    # the wording of the message is not part of the property: one warning /
+    # one printed line
     if want == 'warn':
-        ok = warned == [msg] and not printed and not called
+        ok = len(warned) == 1 and not printed and not called
     elif want == 'print':
-        ok = printed == msg + '\n' and not warned and not called
+        ok = printed.endswith('\n') and printed.count('\n') == 1 and \
+            len(printed) > 1 and not warned and not called
     elif want == 'call':
         # the registered callback (if any) was invoked with the table
         if kind in ctx.cbs:
